@@ -141,7 +141,30 @@ class Gen:
                         cfg['services'][0]['chars'].append(ch)
                         break
         self.assign_handles(cfg, r.random() < 0.5)
+        self.choose_priorities(cfg)
         return cfg
+
+    # ---- outgoing priorities (index % 4 == 2), drawn from a generator of their own so that everything else stays as it was:
+    # a list of services on the server and / or a list of characteristics in one service (lower_outgoing_priority<> is declared by
+    # Bluetoe but has no implementation). The model does not depend on the resulting order (C12 judges the queue with given priorities).
+    def choose_priorities(self, cfg):
+        cfg['prio_server'] = None
+        cfg['prio_service'] = None
+        if self.index % 4 != 2:
+            return
+        pr = random.Random(977 * self.index + 13)
+        with_cccd = [(si, [ch for ch in svc['chars'] if self.has_cccd(ch)]) for si, svc in enumerate(cfg['services'])]
+        with_cccd = [(si, chs) for si, chs in with_cccd if chs]
+        total = sum(len(chs) for _, chs in with_cccd)
+        multi = [(si, chs) for si, chs in with_cccd if len(chs) >= 2]
+        variant = (self.index // 4) % 4          # 0: service list, 1: server list of two, 2: server list of one, 3: both
+        # (the compiler needs more than 64 GiB for a service level list in a server with 11 CCCDs)
+        if variant in (0, 3) and multi and total <= 6:
+            si, chs = multi[-1]
+            cfg['prio_service'] = (si, list(reversed(chs))[:pr.choice([1, 2])])
+        if variant in (1, 2, 3) and len(with_cccd) >= 2:
+            sis = [si for si, _ in with_cccd]
+            cfg['prio_server'] = list(reversed(sis))[:2 if variant == 1 else 1]
 
     # ---- the handle rules of attribute_handle.hpp, re-stated
     def assign_handles(self, cfg, use_fixed):
@@ -322,9 +345,13 @@ def emit(cfg, out):
                 else:
                     co.append('bluetoe::attribute_handles< 0x%04X, 0x%04X, 0x%04X >' % ch['handles'][1:])
             so.append('bluetoe::characteristic<\n            ' + ',\n            '.join(co) + ' >')
+        if cfg.get('prio_service') and cfg['services'][cfg['prio_service'][0]] is svc:
+            so.append('bluetoe::higher_outgoing_priority< ' + ', '.join(cpp_uuid(ch['uuid'], 'characteristic') for ch in cfg['prio_service'][1]) + ' >')
         if svc['secondary']:
             so.append('bluetoe::is_secondary_service')     # secondary_service<> itself is not usable inside a server (handle mapping matches service<> only)
         opts.append('bluetoe::service<\n        ' + ',\n        '.join(so) + ' >')
+    if cfg.get('prio_server'):
+        opts.append('bluetoe::higher_outgoing_priority< ' + ', '.join(cpp_uuid(cfg['services'][si]['uuid'], 'service') for si in cfg['prio_server']) + ' >')
     if cfg['enc']:
         opts.append('bluetoe::' + cfg['enc'])
     if cfg['max_mtu'] != 23 or cfg['index'] % 2:
@@ -343,7 +370,8 @@ def emit(cfg, out):
         A('    { 0x%04x, 0x%04x, %s, %d, %s },' % (svc['decl_handle'], svc['end_handle'], 'false' if svc['secondary'] else 'true', len(svc['uuid']['bytes']), bytes_init(svc['uuid']['bytes'])))
     A('};')
     A('const gatt::char_desc chars[] = {')
-    cccd_index = 0
+    cccd_chars = [ch for ch in chars_flat if Gen.has_cccd(ch)]
+    cccd_index_of = {id(ch): k for k, ch in enumerate(cccd_chars)}       # the model numbers CCCDs in declaration order
     for ch in chars_flat:
         svc = cfg['all_services'][ch['si']]
         enc = enc_value(enc_value(server_enc, svc['enc']), ch['enc'])
@@ -364,10 +392,8 @@ def emit(cfg, out):
             ch['si'], kind_id, ch['size'], 'true' if readable(ch) else 'false', 'true' if writable(ch) else 'false',
             'true' if 'notify' in ch['opts'] else 'false', 'true' if 'indicate' in ch['opts'] else 'false', 'true' if enc else 'false',
             'true' if ch['kind'] in ('handler_rw', 'handler_r') else 'false',
-            props, hs[0], hs[1], hs[2] if has_cccd else 0, cccd_index if has_cccd else -1, len(ch['uuid']['bytes']), bytes_init(ch['uuid']['bytes']),
+            props, hs[0], hs[1], hs[2] if has_cccd else 0, cccd_index_of[id(ch)] if has_cccd else -1, len(ch['uuid']['bytes']), bytes_init(ch['uuid']['bytes']),
             bytes_init(ch['init']) if ch['size'] else '{ 0 }', ptr, store))
-        if has_cccd:
-            cccd_index += 1
     A('};')
     A('const gatt::attr_desc attrs[] = {')
     for si, svc in enumerate(cfg['all_services']):
@@ -390,8 +416,10 @@ def emit(cfg, out):
                 A('    { 0x%04x, gatt::a_const, 0x%04x, %d, %d, 0, %d, %s },' % (hs[pos], d['uuid16'], si, ci, len(d['value']), bytes_init(d['value'])))
                 pos += 1
     A('};')
-    n_cccd = cccd_index
-    A('const gatt::config_desc config = { %d, %d, %d, %d, services, sizeof( services ) / sizeof( services[ 0 ] ), chars, sizeof( chars ) / sizeof( chars[ 0 ] ), attrs, sizeof( attrs ) / sizeof( attrs[ 0 ] ) };' % (
+    n_cccd = len(cccd_chars)
+    # where the server keeps the flags of the k-th CCCD (its position after sorting by outgoing priority): storage layout only, asked from the server type
+    A('const int cccd_storage[] = { ' + ', '.join('static_cast< int >( bluetoe::details::index_of< std::integral_constant< std::size_t, %d >, server_t::cccd_indices >::value )' % k for k in range(n_cccd)) + (' ' if n_cccd else '-1 ') + '};')
+    A('const gatt::config_desc config = { %d, %d, %d, %d, services, sizeof( services ) / sizeof( services[ 0 ] ), chars, sizeof( chars ) / sizeof( chars[ 0 ] ), attrs, sizeof( attrs ) / sizeof( attrs[ 0 ] ), cccd_storage };' % (
         i, cfg['max_mtu'], cfg['queue'], n_cccd))
     # application entry points
     A('bool app_request( server_t& srv, int ci, bool indication, bool by_uuid )')
